@@ -9,6 +9,17 @@ TRUST = ("Trusted base: CPython, Hypothesis, the reference models under lsfverif
          "'held' means held on the cases counted in the evidence file.")
 
 CHECKS = {
+    "C19": dict(
+        category="exploration",
+        technique="property-based testing with a routing monitor over the simulated broker's operation log (1-3 engine instances, classic/quorum, generated machines x schedules), plus generated Message round-trips and generated address strings compared with a reference reading of the grammar and differentially across the asyncio and blocking transports",
+        text=("Affinity: every publish and delivery of every generated run is checked: start events on the shared queue, all later events published by and delivered only to the instance that consumed the start event, through its "
+              "durable per-instance queue with a single exclusive consumer; task requests on the function's queue with the owner's reply queue and a correlation id; replies delivered to it; queue-type arguments and prefetch as configured. "
+              "Mapping: Messages with generated body / properties / ids / reply-to / 18 expiration variants are sent and received through the messaging layer on both transports and compared field by field; individual acknowledgements "
+              "must release exactly one delivery. Address: generated address strings (queue declarations, bindings, subscriptions to existing and declared exchanges, producer targets) must create exactly the entities a reference reading "
+              "of the documented grammar describes, identically on both transports."),
+        design_ref="DESIGN.md section 5 C19",
+        note="Simulated broker and pika stand-ins. " + TRUST,
+    ),
     "C20": dict(
         category="exploration",
         technique="model-based (stateful) property testing of the store classes against a dict model: Hypothesis-generated operation sequences incl. reopen, TTL + clock, two clients and explicit placement of cache-invalidation delivery, on a simulated Redis server",
